@@ -107,6 +107,9 @@ def plan(tier: str, rnd: random.Random) -> list[dict]:
             out.append({"log": os.path.relpath(f, X.tests_dir()), "how": how,
                         "other": os.path.relpath(other_name, X.tests_dir()) if how in ("splice", "interleave") else "",
                         "eav": rnd.choice((0, 0, 1)), "lines": lines})
+            if how == "full" and (tier != "quick" or len(out) % 4 == 1):
+                # the same history with the state read once while its last packets are fresh, then aged
+                out.append(dict(out[-1], how="full+aged", age_s=float(rnd.choice((900, 3600, 86400)))))
     return out
 
 
@@ -116,7 +119,7 @@ async def run_all(hist: list[dict], pid: X.Interner, sid: X.Interner, budget_s: 
     for hh in hist:
         if time.time() - t0 > budget_s:
             break
-        items.append(await X.run_history(hh["lines"], hh["eav"], pid, sid))
+        items.append(await X.run_history(hh["lines"], hh["eav"], pid, sid, age_s=hh.get("age_s", 0.0)))
     return items
 
 
@@ -126,7 +129,7 @@ def do_replay(path: str) -> None:
     print(f"replaying {obj.get('key', '?')}: {obj.get('what', '')}")
     fakes.quiet_logging()
     pid, sid = X.Interner(), X.Interner()
-    item, _ = vloop.run(lambda: X.run_history(rp["lines"], rp["eav"], pid, sid, verbose=True))
+    item, _ = vloop.run(lambda: X.run_history(rp["lines"], rp["eav"], pid, sid, verbose=True, age_s=rp.get("age_s", 0.0)))
     ops = item["ops"]
     for a, b in ((1, 3), (3, 5), (1, 7), (8, 10), (10, 12), (8, 14)):
         if b <= len(ops) and ops[a - 1]["ok"] and ops[b - 1]["ok"]:
@@ -207,7 +210,8 @@ def main(tier: str, replay: str | None) -> None:
             classes[cls] = classes.get(cls, 0) + 1
             what = (f"{cls}: history {hh['log']} ({hh['how']}{' + ' + hh['other'] if hh['other'] else ''}, "
                     f"{len(hh['lines'])} lines, eavesdrop={'on' if hh['eav'] else 'off'}), op {line}")
-            chk.violation(cls, what, {"lines": hh["lines"], "eav": hh["eav"], "log": hh["log"], "how": hh["how"], "op": line})
+            chk.violation(cls, what, {"lines": hh["lines"], "eav": hh["eav"], "log": hh["log"], "how": hh["how"], "op": line,
+                                      "age_s": hh.get("age_s", 0.0)})
     if cand is not None and not rej.get(len(items) - 1):
         chk.model_drift("the out-of-order counter-example of MC_Snapshot_order did not reproduce on the code")
     if n_raised:
